@@ -18,7 +18,7 @@ var run *ev.Run
 func TestMain(m *testing.M) {
 	projsim.MaybeChild()
 	run = ev.Start("C03", "fault_enumeration",
-		"rapid draws a project (as C01), a prefix history (full build, then 1-3 input-changing edits), a fault and 0-3 further operations. Fault = a chosen "+
+		"rapid draws a project (as C01), a prefix history (full build, then 1-3 input-changing edits; a quarter of the faulty builds are forced ones, half of those on an unchanged tree), a fault and 0-3 further operations. Fault = a chosen "+
 			"body fails, or the build process exits at a named crash point: before / inside / after a body, after the record's temp file is created, after "+
 			"it is encoded, before and after its rename (also for failure records and for the load-time record refresh), after packages are loaded, after "+
 			"linking, after index.json is created (truncated) and after it is written. The faulty build is first run un-faulted in counting mode from a "+
@@ -37,10 +37,10 @@ func TestMain(m *testing.M) {
 type Case struct {
 	M      *projsim.Model `json:"m"`
 	Edits  []projsim.Op   `json:"edits"`
-	FailT  int            `json:"failt"` // body failure variant: target selector (-1 = none)
-	Hits   []int          `json:"hits"`  // selectors of crash points to replay (quick)
-	After  []projsim.Op   `json:"after"` // further operations before the final build
-	Only   *Hit           `json:"only,omitempty"` // replay files: exactly this crash point
+	FailT  int            `json:"failt"`            // body failure variant: target selector (-1 = none)
+	Hits   []int          `json:"hits"`             // selectors of crash points to replay (quick)
+	After  []projsim.Op   `json:"after"`            // further operations before the final build
+	Only   *Hit           `json:"only,omitempty"`   // replay files: exactly this crash point
 	Forced bool           `json:"forced,omitempty"` // the faulty build is a forced one (build --always)
 }
 
